@@ -44,19 +44,33 @@ def _wait_closed():
 
 
 def run_link(case):
+    """one or two sessions on the SAME RadioDriver object (connect, traffic, close, connect again ...)"""
     import cflib.crtp.radiodriver as rd
-    from cflib.crtp.crtpstack import CRTPPacket
     out = Outcome()
+    sessions = [case] + list(case.get('more_sessions', []))
+    current = {}
+    with RadioEnv(lambda: [current['dongle']], nonblocking_queue=True):
+        drv = rd.RadioDriver()
+        for si_, sess in enumerate(sessions):
+            current['dongle'] = LockstepDongle()
+            _run_session(rd, drv, current['dongle'], sess, out, si_)
+            if out.violations:
+                break
+    if len(sessions) > 1:
+        out.feat('sessions-%d' % len(sessions))
+    return out
+
+
+def _run_session(rd, drv, dongle, case, out, session_index):
+    from cflib.crtp.crtpstack import CRTPPacket
     N = case['N']
     steps = case['steps']
     peer = SafelinkPeer(case['peer_supports'])
-    dongle = LockstepDongle()
     errors = []
     txi = {'n': 0}
     style = case.get('style', 0)
-    with RadioEnv(lambda: [dongle], nonblocking_queue=True):
+    if True:
         rd.set_retries_before_disconnect(N)
-        drv = rd.RadioDriver()
         drv.connect('radio://0/80/2M', None, lambda m: errors.append((txi['n'], m)))
         try:
             # ---- negotiation
@@ -160,10 +174,10 @@ def run_link(case):
             dongle.release(b'\x00')
             drv.close()
             _wait_closed()
-    out.nontrivial = loss_with_up or loss_with_down
+    out.nontrivial = out.nontrivial or loss_with_up or loss_with_down
     out.feat('loss-with-uplink-inflight' if loss_with_up else 'no-uplink-loss', 'loss-with-downlink-pending' if loss_with_down else 'no-downlink-loss',
              'N-%s' % (N if N < 100 else 'default'))
-    desc = 'nego %r peer_supports=%r N=%d steps %s' % (case['nego'], case['peer_supports'], N,
+    desc = 'session %d nego %r peer_supports=%r N=%d steps %s' % (session_index, case['nego'], case['peer_supports'], N,
                                                       ' '.join('%s%s%d' % (s['outcome'][0] if s['outcome'] != 'ack_lost' else 'a', 'S' if s['submit'] else '-', s['down']) for s in steps))
     if expected_errors == 0 and host_safelink:
         acc = [(h, d) for h, d in peer.accepted if (h & 0xF0) != 0xF0]
@@ -182,7 +196,6 @@ def run_link(case):
         bad = [f for f in main if f not in allowed]
         if bad:
             out.fail('safelink:used-without-confirmation', '%s: frame %s sent although safelink was never confirmed' % (desc, bad[0].hex()))
-    return out
 
 
 _OUT = ['ok', 'up_lost', 'ack_lost']
@@ -203,14 +216,18 @@ _step = st.fixed_dictionaries({'submit': st.booleans(), 'down': st.sampled_from(
 
 
 @st.composite
-def random_case(draw):
+def random_case(draw, _depth=0):
     supports = draw(st.sampled_from([True, True, True, False]))
     nego = draw(st.one_of(st.just(['ok']), st.lists(st.sampled_from(['ok', 'lost', 'acklost']), max_size=10)))
     N = draw(st.sampled_from([100, 100, 1, 2, 3, 4, 5, 6]))
     n = draw(st.sampled_from([3, 8, 20, 40, 120])) if N == 100 else draw(st.integers(1, 14))
     steps = draw(st.lists(_step, min_size=1, max_size=n))
-    return {'N': N, 'nego': nego, 'peer_supports': supports, 'steps': steps, 'style': draw(st.integers(0, 3)),
+    case = {'N': N, 'nego': nego, 'peer_supports': supports, 'steps': steps, 'style': draw(st.integers(0, 3)),
             'pre_queue': draw(st.sampled_from([0, 1, 2, 10]))}
+    if _depth == 0 and draw(st.sampled_from([False, False, True])):
+        case['more_sessions'] = [draw(random_case(_depth=1))]
+        case['steps'] = case['steps'][:12]
+    return case
 
 
 def subchecks(tier):
